@@ -201,6 +201,7 @@ type Job struct {
 	SplitIdx int    `json:"split_idx"`
 	SplitK   int    `json:"split_k"`
 	Weight   int    `json:"weight"`
+	Phase    int    `json:"phase"` // deviation bound of the scenario: lower phases are served first
 }
 
 func mustGen(prop string) Gen {
@@ -222,13 +223,27 @@ func Jobs(prop, tier string) []Job {
 			k = 1
 		}
 		for j := 0; j < k; j++ {
-			out = append(out, Job{Index: i, Name: sc.Name, SplitIdx: j, SplitK: k, Weight: sc.Weight + 1000*(k-1)})
+			ph := sc.Opts.Bound
+			if sc.Opts.Unbounded {
+				ph = 0
+				if k > 1 {
+					ph = 99
+				}
+			}
+			out = append(out, Job{Index: i, Name: sc.Name, SplitIdx: j, SplitK: k, Weight: sc.Weight + 1000*(k-1), Phase: ph})
 		}
 	}
 	for i, p := range plains {
 		out = append(out, Job{Index: len(scns) + i, Name: p.Name, SplitK: 1, Weight: p.Weight})
 	}
-	sort.SliceStable(out, func(a, b int) bool { return out[a].Weight > out[b].Weight })
+	// Lower bounds first, so that a run that hits its time budget has completed everything of
+	// the smaller bounds (and says so); within a bound the heaviest jobs first (better packing).
+	sort.SliceStable(out, func(a, b int) bool {
+		if out[a].Phase != out[b].Phase {
+			return out[a].Phase < out[b].Phase
+		}
+		return out[a].Weight > out[b].Weight
+	})
 	return out
 }
 
@@ -257,7 +272,7 @@ func Serve(prop, tier, replayDir string, deadline time.Time) {
 }
 
 // RunShard explores the scenarios of prop assigned to shard (index mod nshards); used for
-// debugging (-only) and single-process runs.
+// debugging (-only; a trailing * makes it a prefix) and single-process runs.
 func RunShard(prop, tier string, shard, nshards int, budget time.Duration, replayDir string, only string) *Report {
 	scns, plains := mustGen(prop)(tier)
 	t0 := time.Now()
@@ -271,7 +286,7 @@ func RunShard(prop, tier string, shard, nshards int, budget time.Duration, repla
 	for _, sc := range scns {
 		mine := idx%nshards == shard
 		idx++
-		if (only != "" && sc.Name != only) || (only == "" && !mine) {
+		if (only != "" && !matchOnly(only, sc.Name)) || (only == "" && !mine) {
 			continue
 		}
 		runScn(r, sc, 0, 1)
@@ -279,7 +294,7 @@ func RunShard(prop, tier string, shard, nshards int, budget time.Duration, repla
 	for _, p := range plains {
 		mine := idx%nshards == shard
 		idx++
-		if (only != "" && p.Name != only) || (only == "" && !mine) {
+		if (only != "" && !matchOnly(only, p.Name)) || (only == "" && !mine) {
 			continue
 		}
 		r.RunPlain(p)
@@ -531,4 +546,11 @@ func raceTopFrames(rep string) []raceFrame {
 		}
 	}
 	return out
+}
+
+func matchOnly(only, name string) bool {
+	if strings.HasSuffix(only, "*") {
+		return strings.HasPrefix(name, only[:len(only)-1])
+	}
+	return name == only
 }
